@@ -260,8 +260,221 @@ def delete_symbol_history_harness(ctx):
     ctx.cover("enumerated")
 
 
+# ---------------------------------------------------------------------------------------------------------------------------------
+# delete_symbol in the company of OTHER requests of the same RewritingContext, through the real apply().
+#
+# Everything above calls delete_symbols / delete_symbol on their own.  The property is a statement about the user's call
+# `ctx.delete_symbol(s, force=f)` whatever else the same context was asked to do: the flag the user gave is the flag that decides,
+# and "still uses it" is judged on the module as the other requests leave it.  The oracle below is written from the property
+# statement only and judges OUTCOMES (it does not predict how a retarget treats an expression -- that is C18's business):
+#   * an expression may disappear only if it names a symbol whose deletion was FORCED (before or after the requested retargets), or
+#     if it lay in a block the user deleted;
+#   * if apply() returns, the deleted symbols have left the module, no expression / table names them, symbols and entries not asked
+#     for are untouched, and the module serialises;
+#   * SymbolUsesRemainingError names an UNFORCED symbol of the request that an expression still uses;
+#   * any other failure is only acceptable as the refusal of one of the companion requests.
+# Every expression carries a distinct addend ("tag"), which neither retargeting nor deleting changes, so expressions are followed by
+# tag and not by position.
+
+APPLY_USES = ("no use of A", "data word A", "call A", "difference A - K", "difference K - A")
+APPLY_COMPANIONS = ("nothing else", "retarget A -> N", "retarget C -> A", "retarget A -> N and C -> A", "retarget K -> N", "retarget C -> N",
+                    "delete the block holding the use of A", "retarget A -> N and delete the block holding the use of A")
+TAG_USE, TAG_C, TAG_K, TAG_N, TAG_B = 1, 3, 4, 5, 6
+
+
+def apply_build(ff, use, with_b):
+    from gtirb_test_helpers import add_data_section, add_edge
+    ir, m = create_test_module(ff, gtirb.Module.ISA.X64)
+    _, tbi = add_text_section(m, address=0x1000)
+    S = {n: add_symbol(m, n, add_code_block(tbi, b"\xC3")) for n in ("A", "N", "C", "B")}
+    if use == "call A":
+        site = add_code_block(tbi, b"\xE8\x00\x00\x00\x00", {(1, 4): gtirb.SymAddrConst(TAG_USE, S["A"])})
+    else:
+        site = add_code_block(tbi, b"\x90\x90\x90\x90\x90")
+    after = add_code_block(tbi, b"\xC3")
+    S["main"] = add_symbol(m, "main", site)
+    if use == "call A":
+        add_edge(ir.cfg, site, S["A"].referent, gtirb.EdgeType.Call)
+    add_edge(ir.cfg, site, after, gtirb.EdgeType.Fallthrough)
+    _, dbi = add_data_section(m, address=0x4000)
+    use_blk = add_data_block(dbi, b"\x00" * 8)
+    others = add_data_block(dbi, b"\x00" * 24)
+    S["K"] = add_symbol(m, "K", others)
+    if use == "data word A":
+        dbi.symbolic_expressions[0] = gtirb.SymAddrConst(TAG_USE, S["A"])
+    elif use == "difference A - K":
+        dbi.symbolic_expressions[0] = gtirb.SymAddrAddr(1, TAG_USE, S["A"], S["K"])
+    elif use == "difference K - A":
+        dbi.symbolic_expressions[0] = gtirb.SymAddrAddr(1, TAG_USE, S["K"], S["A"])
+    dbi.symbolic_expressions[8] = gtirb.SymAddrConst(TAG_C, S["C"])
+    dbi.symbolic_expressions[12] = gtirb.SymAddrConst(TAG_K, S["K"])
+    dbi.symbolic_expressions[16] = gtirb.SymAddrConst(TAG_N, S["N"])
+    if with_b:
+        dbi.symbolic_expressions[20] = gtirb.SymAddrConst(TAG_B, S["B"])
+    if ff == gtirb.Module.FileFormat.ELF:
+        _auxdata.elf_symbol_info.set(m, {s: (0, "OBJECT" if n == "K" else "FUNC", "GLOBAL", "DEFAULT", 0) for n, s in S.items()})
+    else:
+        _auxdata.pe_exported_symbols.set(m, [S["K"], S["A"], S["B"], S["main"]])
+    _auxdata.function_names.set(m, {uuid.UUID(int=i + 1): S[n] for i, n in enumerate(("A", "N", "C", "B", "main"))})
+    return ir, m, S, (site if use == "call A" else use_blk)
+
+
+def apply_exprs(m, names):
+    out = {}
+    for i in m.byte_intervals:
+        for k, e in i.symbolic_expressions.items():
+            out[e.offset] = (type(e).__name__, tuple(names.get(id(s), "?") for s in e.symbols), i, k)
+    return out
+
+
+def apply_tables(m, names):
+    out = {}
+    t = _auxdata.elf_symbol_info.get(m)
+    out["elfSymbolInfo"] = None if t is None else sorted(names.get(id(k), "?") for k in t)
+    t = _auxdata.pe_exported_symbols.get(m)
+    out["peExportedSymbols"] = None if t is None else [names.get(id(x), "?") for x in t]
+    t = _auxdata.function_names.get(m)
+    out["functionNames"] = None if t is None else {k.int: names.get(id(v), "?") for k, v in t.items()}
+    return out
+
+
+def apply_harness(ctx):
+    """RewritingContext.apply(): delete_symbol(A, force=f) [and optionally delete_symbol(B, force=True)] together with retargets and a
+    block deletion registered in the same context, in both registration orders (E: every combination is executed on the real code)"""
+    import logging
+    ff = (gtirb.Module.FileFormat.ELF, gtirb.Module.FileFormat.PE)[ctx.choose(2, "format")]
+    use = APPLY_USES[ctx.choose(len(APPLY_USES), "use-of-A")]
+    force = bool(ctx.choose(2, "force"))
+    comp = APPLY_COMPANIONS[ctx.choose(len(APPLY_COMPANIONS), "companion-requests")]
+    delete_first = bool(ctx.choose(2, "delete_symbol-registered-first")) if comp != "nothing else" else True
+    with_b = bool(ctx.choose(2, "also-delete-B-forced(B-has-a-use)"))
+    ir, m, S, use_block = apply_build(ff, use, with_b)
+    names = {id(s): n for n, s in S.items()}
+    retargets = {}
+    for a, b in (("A", "N"), ("C", "A"), ("K", "N"), ("C", "N")):
+        if "%s -> %s" % (a, b) in comp:
+            retargets[a] = b
+    drop_block = "delete the block" in comp
+    requested = {"A": force}
+    if with_b:
+        requested["B"] = True
+    pre = apply_exprs(m, names)
+    pre_tables = apply_tables(m, names)
+    pre_symbols = sorted(names.get(id(s), "?") for s in m.symbols)
+    in_dropped_block = set()
+    if drop_block:
+        bi, lo, hi = use_block.byte_interval, use_block.offset, use_block.offset + use_block.size
+        in_dropped_block = {t for t, (_, _, i, k) in pre.items() if i is bi and lo <= k < hi}
+
+    rc = RW.RewritingContext(m, [])
+
+    def deletions():
+        # the unforced / forced request for A is made twice with the SAME flag around B's (the conjunction rule must not mix them up)
+        rc.delete_symbol(S["A"], force=force)
+        if with_b:
+            rc.delete_symbol(S["B"], force=True)
+            rc.delete_symbol(S["A"], force=force)
+
+    def companions():
+        for a, b in retargets.items():
+            rc.retarget_symbol_uses(S[a], S[b])
+        if drop_block:
+            rc.delete_at(use_block, 0, use_block.size)
+
+    for step in ((deletions, companions) if delete_first else (companions, deletions)):
+        step()
+    desc = "%s; %s; delete_symbol(A, force=%s)%s; %s; %s" % (ff.name, use, force, " + delete_symbol(B, force=True)" if with_b else "", comp,
+                                                               "deletion registered first" if delete_first else "deletion registered last")
+    lg = logging.getLogger("gtirb_rewriting")
+    old_level = lg.level
+    lg.setLevel(logging.CRITICAL)
+    try:
+        rc.apply()
+        outcome, exc = "ok", None
+    except SymbolUsesRemainingError as e:
+        outcome, exc = "SymbolUsesRemainingError", e
+    except Exception as e:
+        outcome, exc = type(e).__name__, e
+    finally:
+        lg.setLevel(old_level)
+    post = apply_exprs(m, names)
+    forced = {n for n, f in requested.items() if f}
+    unforced = {n for n, f in requested.items() if not f}
+
+    # 1. the only licence to throw an expression away is a FORCED deletion of a symbol it names (or the user's own block deletion)
+    bad = []
+    for t, (ty, syms, _, _) in pre.items():
+        if t in post or t in in_dropped_block:
+            continue
+        mapped = tuple(retargets.get(n, n) for n in syms)
+        if not ((set(syms) | set(mapped)) & forced):
+            bad.append("%s(%s) [tag %d] was removed" % (ty, ", ".join(syms), t))
+    ctx.prove("apply/an-expression-is-removed-only-for-a-FORCED-deletion-of-a-symbol-it-names", z3.BoolVal(not bad),
+              note="%s -> %s: %s" % (desc, outcome, "; ".join(bad)))
+    # 2. whatever happens, a surviving expression names what it named before, up to the requested retargets; nothing new appears
+    bad = []
+    for t, (ty, syms, _, _) in post.items():
+        if t not in pre:
+            bad.append("new expression tag %d" % t)
+            continue
+        pty, psyms = pre[t][0], pre[t][1]
+        if ty != pty or any(s not in (p, retargets.get(p, p)) for s, p in zip(syms, psyms)):
+            bad.append("%s(%s) became %s(%s)" % (pty, ", ".join(psyms), ty, ", ".join(syms)))
+    ctx.prove("apply/surviving-expressions-differ-only-by-the-requested-retargets", z3.BoolVal(not bad), note="%s -> %s: %s" % (desc, outcome, "; ".join(bad)))
+
+    if outcome == "ok":
+        ctx.cover("apply-succeeded")
+        left = [n for n in requested if S[n] in m.symbols or S[n].module is not None]
+        still = ["%s(%s)" % (ty, ", ".join(syms)) for ty, syms, _, _ in post.values() if set(syms) & set(requested)]
+        tabs = apply_tables(m, names)
+        want_tabs = {
+            "elfSymbolInfo": None if pre_tables["elfSymbolInfo"] is None else [n for n in pre_tables["elfSymbolInfo"] if n not in requested],
+            "peExportedSymbols": None if pre_tables["peExportedSymbols"] is None else [n for n in pre_tables["peExportedSymbols"] if n not in requested],
+            "functionNames": {k: v for k, v in pre_tables["functionNames"].items() if v not in requested},
+        }
+        ctx.prove("apply/success-means-the-symbol-is-gone-and-no-expression-names-it", z3.BoolVal(not left and not still),
+                  note="%s: still in the module %s, still used by %s" % (desc, left, still))
+        ctx.prove("apply/tables-lose-exactly-the-deleted-symbols", z3.BoolVal(tabs == want_tabs), note="%s: observed %r expected %r" % (desc, tabs, want_tabs))
+        ctx.prove("apply/symbols-not-asked-for-stay", z3.BoolVal(sorted(names.get(id(s), "?") for s in m.symbols) == [n for n in pre_symbols if n not in requested]),
+                  note=desc)
+        # an unforced deletion that went through: every expression that named the symbol is still there (under another name) or went with its block
+        kept = [t for t, (_, syms, _, _) in pre.items() if set(syms) & unforced and t not in in_dropped_block]
+        ctx.prove("apply/an-UNFORCED-deletion-succeeds-only-when-no-use-had-to-be-dropped", z3.BoolVal(all(t in post for t in kept)),
+                  note="%s: expressions naming the unforced symbol before: tags %s, after: %s" % (desc, kept, sorted(post)))
+        if unforced and any(set(v[1]) & unforced for v in pre.values()):
+            ctx.cover("unforced-deletion-of-a-symbol-whose-uses-were-all-taken-away-by-companions")
+        if any(t not in post and t not in in_dropped_block for t in pre):
+            ctx.cover("forced-deletion-dropped-an-expression")
+        try:
+            ir.save_protobuf_file(io.BytesIO())
+            ctx.prove("apply/module-still-serialises", z3.BoolVal(True))
+        except Exception as e:
+            ctx.fail("apply/module-still-serialises", "%s: %s: %s" % (desc, type(e).__name__, str(e)[:80]))
+    elif outcome == "SymbolUsesRemainingError":
+        ctx.cover("SymbolUsesRemainingError")
+        culprit = names.get(id(exc.symbol), "?")
+        used = any(culprit in syms for _, syms, _, _ in post.values())
+        ctx.prove("apply/SymbolUsesRemainingError-names-an-UNFORCED-symbol-that-is-still-used", z3.BoolVal(culprit in unforced and used),
+                  note="%s: blamed %s (unforced: %s), still used: %s" % (desc, culprit, sorted(unforced), used))
+    else:
+        ctx.cover("refused-by-a-companion-request")
+        # only a companion request may fail for reasons of its own (C18 decides which); a lone delete_symbol knows one failure only
+        ctx.prove("apply/no-other-failure-without-a-companion-request-to-blame", z3.BoolVal(bool(retargets) or drop_block),
+                  note="%s: %s: %s" % (desc, outcome, str(exc)[:100]))
+    # 3. completeness of the refusal: an unforced symbol that is still used, with no companion touching its uses, must be refused
+    if not force and use != "no use of A" and "A -> N" not in comp and not drop_block and outcome == "ok":
+        ctx.fail("apply/unforced-deletion-of-a-used-symbol-is-refused", "%s: apply() succeeded" % desc)
+    else:
+        ctx.prove("apply/unforced-deletion-of-a-used-symbol-is-refused", z3.BoolVal(True))
+
+
 def jobs(tier="quick", seed=0):
-    yield Job("C19/delete_symbol-histories", delete_symbol_history_harness, kind="E", func="gtirb_rewriting.rewriting:RewritingContext.delete_symbol", expect_cover=("enumerated",))
+    yield Job("C19/apply-with-companion-requests", apply_harness, kind="E", func="gtirb_rewriting.rewriting:RewritingContext.apply",
+              # ("refused-by-a-companion-request" is reached today -- a retarget refuses label differences -- but whether a companion refuses
+              # is C18's decision, so it is not demanded here)
+              expect_cover=("apply-succeeded", "SymbolUsesRemainingError", "forced-deletion-dropped-an-expression",
+                            "unforced-deletion-of-a-symbol-whose-uses-were-all-taken-away-by-companions"))
+    yield Job("C19/delete_symbol-histories",delete_symbol_history_harness, kind="E", func="gtirb_rewriting.rewriting:RewritingContext.delete_symbol", expect_cover=("enumerated",))
     from . import c19_d
     yield from c19_d.jobs(tier, seed)
     # the accessor through which every table update above reaches the module
